@@ -10,6 +10,8 @@ REPO = os.environ.get('VERIF_REPO', '/repo')   # (a scratch copy when a seeded c
 SRC = REPO + '/src'
 DECL = re.compile(r'\b([a-z_][a-z0-9_]*)\s*:\s*(?:&(?:mut\s+)?)?(?:Vec<)?(?:std::collections::)?(?:HashMap|HashSet|IdMap)\b')
 LET = re.compile(r'\blet\s+(?:mut\s+)?([a-z_][a-z0-9_]*)\s*(?::[^=]*)?=\s*(?:std::collections::)?(?:HashMap|HashSet|IdMap)(?:::<[^>]*>)?::')
+# `let x = ....collect::<HashMap<_, _>>()` (turbofish on the collecting call)
+LET2 = re.compile(r'\blet\s+(?:mut\s+)?([a-z_][a-z0-9_]*)\s*(?::[^=]*)?=[^;]*::<\s*(?:std::collections::)?(?:HashMap|HashSet|IdMap)\b')
 RET = re.compile(r'fn\s+([a-z_][a-z0-9_]*)[^{;]*->\s*(?:Result<)?(?:HashMap|HashSet|IdMap)\b')
 ITER = r'(?:\.iter\(\)|\.iter_mut\(\)|\.keys\(\)|\.values\(\)|\.values_mut\(\)|\.into_iter\(\)|\.drain\(|\.into_keys\(\)|\.into_values\(\)|\.retain\()'
 
@@ -25,6 +27,7 @@ def sites():
             l = strip(l)
             for m in DECL.finditer(l): names.add(m.group(1))
             for m in LET.finditer(l): names.add(m.group(1))
+            for m in LET2.finditer(l): names.add(m.group(1))
         # functions returning hash containers: their call results, bound by `let x = f(...)`
         if not names and not any('HashMap' in l or 'HashSet' in l or 'IdMap' in l for l in text): continue
         fn = '?'
@@ -37,7 +40,7 @@ def sites():
             if in_test: continue
             for n in names:
                 pat = re.compile(r'(?:\b|\.)' + re.escape(n) + r'(?:\s*\.\s*(?:last|last_mut|first)\(\)\s*\.\s*(?:unwrap|expect)\([^)]*\))?\s*' + ITER)
-                pat2 = re.compile(r'\bfor\b[^;{]*\bin\s+&?(?:mut\s+)?(?:self\s*\.\s*)?' + re.escape(n) + r'\b\s*\{')
+                pat2 = re.compile(r'\bfor\b[^;{]*\bin\s+&?(?:mut\s+)?(?:[A-Za-z_][A-Za-z0-9_]*\s*\.\s*)*' + re.escape(n) + r'\b\s*\{')
                 for p in (pat, pat2):
                     for mm in p.finditer(s):
                         out.append({'file': os.path.relpath(path, REPO), 'fn': fn, 'container': n, 'expr': re.sub(r'\s+', ' ', mm.group(0)).strip()})
